@@ -33,14 +33,23 @@ def gen(rng, tier):
             # instance (a customer without an arc from the depot / an empty route pool), followed by every query kind
             q = QUERIES[(k // 4) % len(QUERIES)]
             form = ["arc", "path", "seq"][(k // (4 * len(QUERIES))) % 3]
-            case = FU.gen_form_case(rng, tier, forms=(form,), heur_p=0.0, nmax=4)
-            custs = [nd["name"] for nd in case["spec"]["nodes"][1:]]
-            if custs:
-                c = rng.choice(custs)
-                dep = case["spec"]["nodes"][0]["name"]
-                case["spec"]["arcs"] = [a for a in case["spec"]["arcs"] if not (a[0] == dep and a[1] == c)]
-            if form == "path":
+            # a planted-feasible instance (so that the heuristic can succeed) from which one customer's arcs out of the depot are
+            # removed while its arc back to the depot stays (the heuristic then has to add an entry arc but no exit arc)
+            spec, info = VU.gen_planted(rng, ncust=rng.randint(2, 3), extra_arc_p=rng.choice([0.0, 0.3]), wide=True)
+            dep = spec["nodes"][0]["name"]
+            c = rng.choice([nd["name"] for nd in spec["nodes"][1:]])
+            spec["arcs"] = [a for a in spec["arcs"] if not (a[0] == dep and a[1] == c)]
+            if not any(a[0] == c and a[1] == dep for a in spec["arcs"]):
+                spec["arcs"].append([c, dep, "1", "1"])
+            if ((k // 4) // (3 * len(QUERIES))) % 3 == 2:
+                spec["arcs"] = [a for a in spec["arcs"] if not (a[0] == c and a[1] == dep)]     # every third round: the exit arc is missing too
+            case = dict(form=form, spec=spec, seed=rng.randrange(10 ** 6))
+            if form == "arc":
+                case["grid"] = info["grid"]
+            elif form == "path":
                 case["routes"] = []
+            else:
+                case.update(strict=rng.random() < 0.3, V=rng.choice([1, info["V"]]), L=max(3, info["Lmin"] + rng.choice([0, 1])))
             case["hist"] = [[q], ["heur", rng.choice(["10", "1000"])]] + [[x] for x in QUERIES]
             case["systematic"] = True
             yield case
